@@ -138,6 +138,10 @@ class MusepackInfo(StreamInfo):
             except (EOFError, ValueError):
                 raise MusepackHeaderError("Invalid packet size.")
             data_size = frame_size - key_size - slen
+            if data_size < 0:
+                # a packet can't be smaller than its own header; seeking
+                # backwards would make us parse the same packet forever
+                raise MusepackHeaderError("Invalid packet size.")
             # packets can be at maximum data_size big and are padded with zeros
 
             if frame_type == b"SH":
